@@ -23,6 +23,10 @@ structure Case where
   passes : Nat
   conf : List Str
   items : List Item
+  gun : GunKind := .http
+  pre : Bool := false
+  par : Bool := false
+  sched : List Nat := []
 
 def parseFormat : String → Option Format
   | "uri" => some .uri
@@ -38,10 +42,20 @@ def parseHdr (s : String) : Option (Str × Str) :=
   | _ => none
 
 def parseItem (s : String) : Option Item :=
-  match s.splitOn "," with
-  | [m, u, h, hs, b] => do
+  let mk (m u h hs b : String) (minor : Nat) : Option Item := do
     let hdrs ← (splitList hs ";").mapM parseHdr
-    pure { hdrs := hdrs, ent := { method := ← unhex m, uri := ← unhex u, host := ← unhex h, body := ← unhex b } }
+    pure { hdrs := hdrs, ent := { method := ← unhex m, uri := ← unhex u, host := ← unhex h, body := ← unhex b,
+                                   minor := minor } }
+  match s.splitOn "," with
+  | [m, u, h, hs, b] => mk m u h hs b 1
+  | [m, u, h, hs, b, "0"] => mk m u h hs b 0
+  | [m, u, h, hs, b, "1"] => mk m u h hs b 1
+  | _ => none
+
+def parseGun : String → Option GunKind
+  | "" | "http" => some .http
+  | "http2" => some .http2
+  | "connect" => some .connect
   | _ => none
 
 def parseCase (kv : List (String × String)) : Option Case := do
@@ -51,8 +65,12 @@ def parseCase (kv : List (String × String)) : Option Case := do
   let conf ← (splitList (getS kv "conf") ";").mapM unhex
   let items ← (splitList (getS kv "ents") "|").mapM parseItem
   if inst = 0 ∨ passes = 0 ∨ items = [] then none
+  let gun ← parseGun (getS kv "gun")
+  let sched ← (splitList (getS kv "sched") ".").mapM String.toNat?
+  if sched.any (· ≥ inst) then none
   pure { f := f, ssl := getS kv "ssl" == "1", srvTls := getS kv "srv" == "tls", ka := getS kv "ka" == "1",
-         inst := inst, tgt := getS kv "tgt", passes := passes, conf := conf, items := items }
+         inst := inst, tgt := getS kv "tgt", passes := passes, conf := conf, items := items,
+         gun := gun, pre := getS kv "pre" == "1", par := getS kv "mode" == "par", sched := sched }
 
 def parseRecHdr (s : String) : Option (Str × List Str) :=
   match s.splitOn ":" with
@@ -61,14 +79,15 @@ def parseRecHdr (s : String) : Option (Str × List Str) :=
 
 def parseRec (s : String) : Option Rec :=
   match s.splitOn "," with
-  | [m, u, h, t, hs, b] => do
+  | [m, u, h, t, hs, b, p] => do
     pure { method := ← unhex m, uri := ← unhex u, host := ← unhex h, tls := t == "1",
-           header := ← (splitList hs ";").mapM parseRecHdr, body := ← unhex b }
+           header := ← (splitList hs ";").mapM parseRecHdr, body := ← unhex b, major := ← p.toNat? }
   | _ => none
 
 def parseObs (kv : List (String × String)) : Option Obs := do
   pure { n := ← getN? kv "n", shots := ← getN? kv "shots", conns := ← getN? kv "conns",
-         runOk := getS kv "run" == "ok", reqs := ← (splitList (getS kv "reqs") "|").mapM parseRec }
+         runOk := getS kv "run" == "ok", reqs := ← (splitList (getS kv "reqs") "|").mapM parseRec,
+         tunOk := getS kv "tun" == "ok" || getS kv "tun" == "-", decoy := ← getN? kv "decoy" }
 
 /-! ### rendering of the model's prediction -/
 
@@ -84,10 +103,17 @@ def insertSorted (x : Str × List Str) : Hdr → Hdr
 
 def sortHdr (h : Hdr) : Hdr := h.foldl (fun acc x => insertSorted x acc) []
 
-def renderShot (s : Shot) : String :=
+def renderShot (major : Nat) (s : Shot) : String :=
   let hs := (sortHdr (arrivedHeader s.header)).map fun kv => String.intercalate ":" (hex kv.1 :: kv.2.map hex)
   String.intercalate "," [hex s.method, hex s.uri, hex s.host, (if s.scheme = .https then "1" else "0"),
-    String.intercalate ";" hs, hex s.body]
+    String.intercalate ";" hs, hex s.body, toString major]
+
+/-- insertion sort of (key, payload) pairs by key (bytewise = Go's sort.Strings on the ASCII renderings) -/
+def insertKeyed {α} (x : String × α) : List (String × α) → List (String × α)
+  | [] => [x]
+  | y :: ys => if x.1 < y.1 then x :: y :: ys else y :: insertKeyed x ys
+
+def sortKeyed {α} (l : List (String × α)) : List (String × α) := l.foldr insertKeyed []
 
 /-! ### scope of the Spec -/
 
@@ -121,7 +147,8 @@ def wantsOfPass (c : Case) (conf : List (Str × Str)) (t : Str) : List Item → 
       | .uri | .uripost => acc ++ ls
       | _ => ls
     if !(ls.all fun kv => tokenName kv.1 && cleanValue kv.2) then none
-    if !validMethod it.ent.method ∨ it.ent.method = [] then none
+    if !validMethod it.ent.method then none
+    if it.ent.method = [] ∧ c.f ≠ .jsonline ∧ c.f ≠ .jsonarr then none
     if !uriInGrammar c.f it.ent.uri then none
     if (c.f = .jsonline ∨ c.f = .jsonarr) ∧ !distinctCanon (ls.map (·.1)) then none
     if c.f = .raw ∧ (valsOf ls hostKey).length > 1 then none
@@ -135,6 +162,9 @@ def repeatList {α} (l : List α) : Nat → List α
 def targetOf (tgt : String) : Str :=
   if tgt == "::1" then str "[::1]:0" else str (tgt ++ ":0")
 
+def isH2Awkward (n : Str) : Bool := n = str "Cookie" || n = connKey || n = str "Keep-Alive" || n = str "Upgrade" ||
+  n = str "Proxy-Connection" || n = str "Te"
+
 def handleRun (c : Case) (impl : String) : String × String :=
   if impl.startsWith "ENV" then ("-", "skip:env")
   else if impl.startsWith "BAD-INPUT" then ("-", "skip:bad-input")
@@ -142,15 +172,26 @@ def handleRun (c : Case) (impl : String) : String × String :=
   match decodeAll c.conf with
   | .error _ => ("provider-err", "skip:malformed-option")
   | .ok conf =>
+    if !constructible c.gun c.ssl then ("construct-err gun", "ok") else
     let confH := confHdr conf
-    let g : Gun := { ssl := c.ssl, target := targetOf c.tgt, targetResolved := targetOf c.tgt }
-    let (reqs, st) := scanAll c.f confH c.items c.passes
+    -- import.go: the pre-resolved address is an address OF the target (observed: everything arrives there / tun=ok);
+    -- Host defaulting uses the configured target
+    let g : Gun := factory c.gun c.ssl true (c.tgt != "localhost") .fails (targetOf c.tgt)
+    let (reqs, st) := provide c.pre c.f confH c.items c.passes
     if st = .panic then ("PANIC model", "fail:panic:model predicts a panic in EnrichRequestWithHeaders") else
     if c.f = .jsonarr ∧ st = .err then ("-", "skip:array-construct-error") else
     let shots := reqs.map (shoot g)
+    let names := (confH.map (·.1)) ++ (shots.flatMap fun s => s.header.map (·.1))
+    if c.gun = .http2 ∧ names.any isH2Awkward then ("-", "skip:h2-connection-specific-or-cookie-header") else
+    if !(shots.all connInGrammar) then ("-", "skip:connection-header-outside-grammar") else
     let arrived := shots.map fun s => sendable s && (c.srvTls == c.ssl)
+    let flights := (shots.zip arrived).zipIdx.map fun (p, j) =>
+      ({ gun := gunOf c.inst c.sched j, arrived := p.2, close := p.1.close } : Flight)
+    let major := if c.gun = .http2 then 2 else 1
     let arrivedShots := (shots.zip arrived).filterMap fun p => if p.2 then some p.1 else none
-    let model := s!"n={arrivedShots.length} shots={shots.length} conns={connsOf c.ka c.inst arrived} run={if st = .ok then "ok" else "err"} reqs={String.intercalate "|" (arrivedShots.map renderShot)}"
+    let rendered := arrivedShots.map (renderShot major)
+    let rendered := if c.par then (sortKeyed (rendered.map fun r => (r, ()))).map (·.1) else rendered
+    let model := s!"n={arrivedShots.length} shots={shots.length} conns={connRun c.ka c.inst flights} run={if st = .ok then "ok" else "err"} tun={if c.gun = .connect then "ok" else "-"} decoy=0 reqs={String.intercalate "|" rendered}"
     let verdict :=
       if confH.any (fun kv => !tokenName kv.1 || !kv.2.all cleanValue) then "skip:malformed-option" else
       match wantsOfPass c conf (hostWithoutPort g.target) c.items [] with
@@ -158,7 +199,13 @@ def handleRun (c : Case) (impl : String) : String × String :=
       | some ws =>
         match parseObs (parseKV impl) with
         | none => s!"fail:crash:{impl.take 120}"
-        | some o => judge (repeatList ws c.passes) (c.srvTls == c.ssl) c.ka c.inst o
+        | some o =>
+          let wants := repeatList ws c.passes
+          -- par mode: the recorded requests are reported sorted; align the expectations the same way
+          let wants := if c.par ∧ wants.length = shots.length then
+              (sortKeyed ((shots.map (renderShot major)).zip wants)).map (·.2)
+            else wants
+          judge wants (c.srvTls == c.ssl) c.ka c.inst o
     (model, verdict)
 
 def handle : Handler := fun input impl =>
